@@ -22,18 +22,21 @@ import (
 func TestMain(m *testing.M) { vt.Main(m) }
 
 type Script struct {
-	Headers   []string `json:"headers"`  // Authorization header values, in order (nil: absent)
-	Verifier  string   `json:"verifier"` // ok invalid oauth other nilinfo both
-	NilOpts   bool     `json:"nil_opts"`
-	Required  []string `json:"required"`
-	Granted   []string `json:"granted"`
-	ExpKind   string   `json:"exp_kind"`   // zero | rel
-	ExpRelNS  int64    `json:"exp_rel_ns"` // expiration = now + rel
-	StripMono bool     `json:"strip_mono"`
-	SkewNS    int64    `json:"skew_ns"`
-	AllowMiss bool     `json:"allow_missing"`
-	MetaURL   string   `json:"meta_url"`
-	InnerCode int      `json:"inner_code"`
+	Headers  []string `json:"headers"`  // Authorization header values, in order (nil: absent)
+	Verifier string   `json:"verifier"` // ok invalid oauth other nilinfo both
+	// InfoWithErr: a verifier that fails hands back the token info it had read next to its error (as a JWT
+	// library passing on the claims of a token whose validation failed does): the error still decides.
+	InfoWithErr bool     `json:"info_with_err,omitempty"`
+	NilOpts     bool     `json:"nil_opts"`
+	Required    []string `json:"required"`
+	Granted     []string `json:"granted"`
+	ExpKind     string   `json:"exp_kind"`   // zero | rel
+	ExpRelNS    int64    `json:"exp_rel_ns"` // expiration = now + rel
+	StripMono   bool     `json:"strip_mono"`
+	SkewNS      int64    `json:"skew_ns"`
+	AllowMiss   bool     `json:"allow_missing"`
+	MetaURL     string   `json:"meta_url"`
+	InnerCode   int      `json:"inner_code"`
 	// Earlier: requests served by the SAME wrapped handler before the judged one (each entry is that
 	// request's Authorization header values; an empty entry is a request without the header).
 	Earlier [][]string `json:"earlier,omitempty"`
@@ -65,6 +68,9 @@ func genScript(rt *rapid.T) Script {
 		s.Headers = []string{rapid.SampledFrom([]string{"Bearer tok", "bearer  tok", "BEARER\ttok", " Bearer tok "}).Draw(rt, "goodhdr")}
 	}
 	s.Verifier = rapid.SampledFrom([]string{"ok", "ok", "ok", "ok", "ok", "invalid", "oauth", "other", "nilinfo", "both"}).Draw(rt, "verifier")
+	if s.Verifier != "ok" && s.Verifier != "nilinfo" {
+		s.InfoWithErr = rapid.Bool().Draw(rt, "info_with_err")
+	}
 	s.NilOpts = rapid.IntRange(0, 7).Draw(rt, "nilopts") == 0
 	s.Required = rapid.SliceOfN(rapid.SampledFrom(scopeAlpha), 0, 4).Draw(rt, "required")
 	switch rapid.IntRange(0, 3).Draw(rt, "grantkind") {
@@ -301,17 +307,21 @@ func runCase(s Script) (res vt.Result) {
 		if judged && s.VerifyNS > 0 {
 			time.Sleep(time.Duration(s.VerifyNS))
 		}
+		var failedInfo *auth.TokenInfo
+		if s.InfoWithErr {
+			failedInfo = info
+		}
 		switch s.Verifier {
 		case "ok":
 			return info, nil
 		case "invalid":
-			return nil, fmt.Errorf("sig mismatch: %w", auth.ErrInvalidToken)
+			return failedInfo, fmt.Errorf("sig mismatch: %w", auth.ErrInvalidToken)
 		case "oauth":
-			return nil, fmt.Errorf("%w: invalid_request", auth.ErrOAuth)
+			return failedInfo, fmt.Errorf("%w: invalid_request", auth.ErrOAuth)
 		case "other":
-			return nil, errOther
+			return failedInfo, errOther
 		case "both":
-			return nil, errors.Join(auth.ErrOAuth, auth.ErrInvalidToken)
+			return failedInfo, errors.Join(auth.ErrOAuth, auth.ErrInvalidToken)
 		default:
 			return nil, nil
 		}
